@@ -122,7 +122,9 @@ class BankMachine(Module):
             req.connect(cmd_buffer_lookahead.sink, keep={"valid", "ready", "we", "addr"}),
             cmd_buffer_lookahead.source.connect(cmd_buffer.sink),
             cmd_buffer.source.ready.eq(req.wdata_ready | req.rdata_valid),
-            req.lock.eq(cmd_buffer_lookahead.source.valid | cmd_buffer.source.valid),
+            # Note: a buffered lookahead FIFO raises source.valid one cycle after the write; also lock
+            # while it holds any command so the crossbar never sees the bank as free in that cycle.
+            req.lock.eq(cmd_buffer_lookahead.source.valid | (cmd_buffer_lookahead.level != 0) | cmd_buffer.source.valid),
         ]
 
         slicer = _AddressSlicer(settings.geom.colbits, address_align)
